@@ -6,10 +6,10 @@ SPEC = {
              "runs generated fault sequences: 1-3 rounds of {kill -9 one store (also while a write request is in flight) or SIGSTOP it, reads immediately and after "
              "failover, writes with overwrites while it is down (refusals retried, must be accepted within 60 s), optional flush, rejoin / SIGCONT, generated catch-up "
              "wait, write, read}, the next round preferring a different victim. Oracle: last-write-wins model of acknowledged writes (a refused or failed request may have "
-             "been applied: old or new); every read must become admissible within 60 s. Non-trivial: every case (each contains a minority failure with a read while it is "
+             "been applied: old or new); every read must become admissible within 90 s (requests time out after 20 s and are repeated) and, while a store is down, stay admissible over 10 s of further reads (the answering replica changes when the failure is detected). Non-trivial: every case (each contains a minority failure with a read while it is "
              "down); distinct by (fault list, op list)"),
     "assumptions": ["only store nodes fail (meta and sql nodes stay up); a minority = one of three stores",
-                    "bounded liveness: writes accepted again within 60 s, reads admissible within 60 s; timing-dependent, failing schedules replay only approximately"],
+                    "bounded liveness: writes accepted again within 60 s, reads admissible within 90 s; timing-dependent, failing schedules replay only approximately"],
     "campaigns": [
         {"name": "fault_sequences", "run": "^TestFaultSequences$", "quick": B(1, 4, 900, shrinktime="1s"), "thorough": B(10, 4, 3400, shrinktime="1s")},
     ],
